@@ -64,7 +64,7 @@ pub fn run(ctx: &mut Ctx) {
         "eligible = credentials registered for the effective RP ID and, for a non-empty allow list, named in it (by id, regardless of descriptor type)".into(),
         "multi-RP histories run on the reference store only (MemoryStore's id lookup ignores the RP: known finding D5 under C05)".into(),
     ];
-    let n = ctx.tier.pick(3_000u32, 60_000u32);
+    let n = ctx.tier.pick(3_000u32, 600_000u32);
     match search(ctx, 3, n, strategy(), check) {
         Search::Pass => {}
         Search::Fail(h, msg) => ctx.violation("histories", json!(h), &msg),
